@@ -86,6 +86,23 @@ fn own_dfs(doc: &Document) -> Option<(Vec<ObjectId>, usize)> {
     }
 }
 
+/// how two enumerations differ: in full when short, else lengths + the first position where they part
+fn differs(got: &[ObjectId], want: &[ObjectId]) -> String {
+    if got.len().max(want.len()) <= 24 {
+        return format!("{:?} differs from {:?}", got, want);
+    }
+    let k = got.iter().zip(want.iter()).take_while(|(a, b)| a == b).count();
+    format!(
+        "has {} pages, expected {}; the first {} agree, then page {} is {:?}, expected {:?}",
+        got.len(),
+        want.len(),
+        k,
+        k + 1,
+        got.get(k),
+        want.get(k)
+    )
+}
+
 /// documented bound of the property (PAGE_TREE_DEPTH_LIMIT of src/document.rs; the model reads the real constant)
 const DEPTH_LIMIT: usize = 256;
 
@@ -176,7 +193,7 @@ fn main() {
         let own = own_dfs(&doc);
         if let Some((want, h)) = &own {
             if *h <= DEPTH_LIMIT + 1 && *want != iter {
-                verdict = format!("FAIL page_iter {:?} differs from the depth-first leaves {:?} (harness walk)", iter, want);
+                verdict = format!("FAIL page_iter vs the depth-first leaves (harness walk, height {}): page_iter {}", h, differs(&iter, want));
             }
         }
         let exact_counts = a.get(2).map(|f| f.tag() == Some("flags") && f.args().iter().any(|x| x.is_id("exact-counts"))).unwrap_or(false);
@@ -199,7 +216,7 @@ fn main() {
                     left.remove(k);
                     let got: Vec<_> = d2.page_iter().collect();
                     if got != left {
-                        verdict = format!("FAIL after delete_pages([{}]) the enumeration is {:?}, expected {:?}", k + 1, got, left);
+                        verdict = format!("FAIL after delete_pages([{}]) the enumeration {}", k + 1, differs(&got, &left));
                     }
                 }
             }
@@ -208,7 +225,7 @@ fn main() {
             if exp.tag() == Some("leaves") {
                 let want: Vec<_> = exp.args().iter().filter_map(oid_of_sx).collect();
                 if want != iter {
-                    verdict = format!("FAIL page_iter {:?} differs from DFS leaves {:?}", iter, want);
+                    verdict = format!("FAIL page_iter vs DFS leaves (generator): page_iter {}", differs(&iter, &want));
                 } else if own.as_ref().map(|(w, _)| w) != Some(&want) {
                     verdict = "FAIL machinery: generator and harness disagree on the tree".into();
                 }
